@@ -13,6 +13,7 @@ import (
 
 	"github.com/slackhq/nebula/header"
 	"github.com/slackhq/nebula/overlay"
+	"github.com/slackhq/nebula/udp"
 )
 
 // VerifMsgName names a handshake message by its noise bytes (the datagram without the nebula header).
@@ -248,4 +249,300 @@ func (c *Control) VerifSendOnTunnel(t header.MessageType, st header.MessageSubTy
 	}
 	c.f.SendMessageToHostInfo(t, st, hi, payload, make([]byte, 12, 12), make([]byte, mtu))
 	return true
+}
+
+// ---------------------------------------------------------------------------------------------------------------
+// Additions for spec/Discovery.tla (system-level lighthouse discovery). Add-only; nothing above is changed.
+
+// VerifOpened is an encrypted datagram opened with a tunnel key (read-only: neither the replay window nor any
+// counter is touched, the datagram bytes are not modified).
+type VerifOpened struct {
+	Peer     string // certificate name of the peer of the tunnel
+	PeerAddr netip.Addr
+	Local    uint32 // local index of the tunnel on the node that opened it
+	Type     header.MessageType
+	Sub      header.MessageSubType
+	Plain    []byte
+}
+
+func verifOpenWith(hi *HostInfo, key interface {
+	DecryptDanger(out, ad, ciphertext []byte, n uint64, nb []byte) ([]byte, error)
+	Overhead() int
+}, h *header.H, data []byte) (*VerifOpened, bool) {
+	if hi == nil || hi.ConnectionState == nil || key == nil || len(data) < header.Len+key.Overhead() {
+		return nil, false
+	}
+	cp := append([]byte(nil), data...)
+	// same nonce layout as ConnectionState.Decrypt: the cipher builds the nonce from the message counter in nb
+	plain, err := key.DecryptDanger(nil, cp[:header.Len], cp[header.Len:], h.MessageCounter, make([]byte, 12, 12))
+	if err != nil {
+		return nil, false
+	}
+	o := &VerifOpened{Local: hi.localIndexId, Type: h.Type, Sub: h.Subtype, Plain: plain}
+	if len(hi.vpnAddrs) > 0 {
+		o.PeerAddr = hi.vpnAddrs[0]
+	}
+	if pc := hi.ConnectionState.peerCert; pc != nil {
+		o.Peer = pc.Certificate.Name()
+	}
+	return o, true
+}
+
+// VerifOpenRecv opens a datagram addressed to this node: the tunnel is found by the header's remote index (= a local
+// index of this node) and the AEAD is opened with that tunnel's receive key. ok=false: no such tunnel or not authentic.
+func (c *Control) VerifOpenRecv(data []byte) (*VerifOpened, bool) {
+	h := &header.H{}
+	if err := h.Parse(data); err != nil || h.Type == header.Handshake || h.Type == header.RecvError {
+		return nil, false
+	}
+	if h.Type == header.Message && h.Subtype == header.MessageRelay {
+		return nil, false
+	}
+	hi := c.f.hostMap.QueryIndex(h.RemoteIndex)
+	if hi == nil || hi.ConnectionState == nil {
+		return nil, false
+	}
+	return verifOpenWith(hi, hi.ConnectionState.dKey, h, data)
+}
+
+// VerifOpenSent opens a datagram this node emitted: the tunnel is one whose remote index is the header's index, the
+// AEAD is opened with that tunnel's send key (same key and nonce the peer would use).
+func (c *Control) VerifOpenSent(data []byte) (*VerifOpened, bool) {
+	h := &header.H{}
+	if err := h.Parse(data); err != nil || h.Type == header.Handshake || h.Type == header.RecvError {
+		return nil, false
+	}
+	if h.Type == header.Message && h.Subtype == header.MessageRelay {
+		return nil, false
+	}
+	hm := c.f.hostMap
+	hm.RLock()
+	var cands []*HostInfo
+	for _, hi := range hm.Indexes {
+		if hi.remoteIndexId == h.RemoteIndex && hi.ConnectionState != nil {
+			cands = append(cands, hi)
+		}
+	}
+	hm.RUnlock()
+	for _, hi := range cands {
+		if o, ok := verifOpenWith(hi, hi.ConnectionState.eKey, h, data); ok {
+			return o, true
+		}
+	}
+	return nil, false
+}
+
+// VerifMeta is a decoded lighthouse payload.
+type VerifMeta struct {
+	Type   string           // NebulaMeta_MessageType name ("HostQuery", ...), "T<n>" for unknown numbers
+	V1     bool             // the overlay address was carried in the v1 field
+	HasVpn bool             // an overlay address was present
+	Vpn    netip.Addr       // claimed / queried overlay address
+	Addrs  []netip.AddrPort // V4AddrPorts then V6AddrPorts
+	Relays []netip.Addr
+}
+
+func VerifDecodeMeta(p []byte) (VerifMeta, bool) {
+	n := &NebulaMeta{}
+	if err := n.Unmarshal(p); err != nil {
+		return VerifMeta{}, false
+	}
+	out := VerifMeta{Type: NebulaMeta_MessageType_name[int32(n.Type)]}
+	if out.Type == "" {
+		out.Type = "T" + itoaVerif(int(n.Type))
+	}
+	if n.Details == nil {
+		return out, true
+	}
+	if a, v, err := n.Details.GetVpnAddrAndVersion(); err == nil {
+		out.HasVpn, out.Vpn, out.V1 = true, a, v == 1
+	}
+	for _, a := range n.Details.V4AddrPorts {
+		if a != nil {
+			out.Addrs = append(out.Addrs, protoV4AddrPortToNetAddrPort(a))
+		}
+	}
+	for _, a := range n.Details.V6AddrPorts {
+		if a != nil {
+			out.Addrs = append(out.Addrs, protoV6AddrPortToNetAddrPort(a))
+		}
+	}
+	out.Relays = n.Details.GetRelays()
+	return out, true
+}
+
+func itoaVerif(i int) string {
+	if i == 0 {
+		return "0"
+	}
+	neg := i < 0
+	if neg {
+		i = -i
+	}
+	var b []byte
+	for i > 0 {
+		b = append([]byte{byte('0' + i%10)}, b...)
+		i /= 10
+	}
+	if neg {
+		b = append([]byte{'-'}, b...)
+	}
+	return string(b)
+}
+
+// VerifLighthouseMsg builds a lighthouse payload of any type with arbitrary claimed overlay address (invalid Addr = the
+// field is left blank), underlay addresses and relays. v1 = carry the overlay address in the v1 field (IPv4 only).
+func VerifLighthouseMsg(typ int32, about netip.Addr, addrs []netip.AddrPort, relays []netip.Addr, v1 bool) []byte {
+	msg := &NebulaMeta{Type: NebulaMeta_MessageType(typ), Details: &NebulaMetaDetails{}}
+	if about.IsValid() {
+		if v1 && about.Is4() {
+			b := about.As4()
+			msg.Details.OldVpnAddr = uint32(b[0])<<24 | uint32(b[1])<<16 | uint32(b[2])<<8 | uint32(b[3])
+		} else {
+			msg.Details.VpnAddr = netAddrToProtoAddr(about)
+		}
+	}
+	for _, a := range addrs {
+		if a.Addr().Is4() {
+			msg.Details.V4AddrPorts = append(msg.Details.V4AddrPorts, netAddrToProtoV4AddrPort(a.Addr(), a.Port()))
+		} else {
+			msg.Details.V6AddrPorts = append(msg.Details.V6AddrPorts, netAddrToProtoV6AddrPort(a.Addr(), a.Port()))
+		}
+	}
+	for _, r := range relays {
+		if v1 && r.Is4() {
+			b := r.As4()
+			msg.Details.OldRelayVpnAddrs = append(msg.Details.OldRelayVpnAddrs, uint32(b[0])<<24|uint32(b[1])<<16|uint32(b[2])<<8|uint32(b[3]))
+		} else {
+			msg.Details.RelayVpnAddrs = append(msg.Details.RelayVpnAddrs, netAddrToProtoAddr(r))
+		}
+	}
+	b, _ := msg.Marshal()
+	return b
+}
+
+// VerifRemoteEntry is one underlay address a node holds for an overlay address, with its provenance:
+// Owner = who told (RemoteList.cache key), Kind = "rep" (reported list of that owner), "lrn" (learned slot of that owner),
+// "rem" (current remote of a tunnel with Vpn), "blk" (blocked in one of the lists).
+type VerifRemoteEntry struct {
+	Vpn, Owner, Kind string
+	Addr             netip.AddrPort
+}
+
+func verifListEntries(x netip.Addr, rl *RemoteList, blocked bool, out map[VerifRemoteEntry]struct{}) {
+	if rl == nil {
+		return
+	}
+	rl.RLock()
+	defer rl.RUnlock()
+	for owner, mc := range rl.cache {
+		if mc == nil {
+			continue
+		}
+		if mc.v4 != nil {
+			if mc.v4.learned != nil {
+				out[VerifRemoteEntry{x.String(), owner.String(), "lrn", protoV4AddrPortToNetAddrPort(mc.v4.learned)}] = struct{}{}
+			}
+			for _, a := range mc.v4.reported {
+				if a != nil {
+					out[VerifRemoteEntry{x.String(), owner.String(), "rep", protoV4AddrPortToNetAddrPort(a)}] = struct{}{}
+				}
+			}
+		}
+		if mc.v6 != nil {
+			if mc.v6.learned != nil {
+				out[VerifRemoteEntry{x.String(), owner.String(), "lrn", protoV6AddrPortToNetAddrPort(mc.v6.learned)}] = struct{}{}
+			}
+			for _, a := range mc.v6.reported {
+				if a != nil {
+					out[VerifRemoteEntry{x.String(), owner.String(), "rep", protoV6AddrPortToNetAddrPort(a)}] = struct{}{}
+				}
+			}
+		}
+	}
+	if blocked {
+		for _, a := range rl.badRemotes {
+			out[VerifRemoteEntry{x.String(), x.String(), "blk", a}] = struct{}{}
+		}
+	}
+}
+
+// VerifRemotes projects every address list the node can use for a peer: the lighthouse cache (addrMap), the list of each
+// pending handshake and the list and current remote of each tunnel (lists that are no longer in addrMap included).
+func (c *Control) VerifRemotes() []VerifRemoteEntry {
+	set := map[VerifRemoteEntry]struct{}{}
+	lh := c.f.lightHouse
+	lh.RLock()
+	lists := map[netip.Addr]*RemoteList{}
+	for a, rl := range lh.addrMap {
+		lists[a] = rl
+	}
+	lh.RUnlock()
+	for a, rl := range lists {
+		verifListEntries(a, rl, true, set)
+	}
+	hsm := c.f.handshakeManager
+	hsm.RLock()
+	pend := map[netip.Addr]*HandshakeHostInfo{}
+	for a, hh := range hsm.vpnIps {
+		pend[a] = hh
+	}
+	hsm.RUnlock()
+	for a, hh := range pend {
+		hh.Lock()
+		rl := hh.hostinfo.remotes
+		hh.Unlock()
+		verifListEntries(a, rl, true, set)
+	}
+	hm := c.f.hostMap
+	hm.RLock()
+	var tuns []*HostInfo
+	for _, hi := range hm.Indexes {
+		tuns = append(tuns, hi)
+	}
+	hm.RUnlock()
+	for _, hi := range tuns {
+		if len(hi.vpnAddrs) == 0 {
+			continue
+		}
+		x := hi.vpnAddrs[0]
+		verifListEntries(x, hi.remotes, true, set)
+		if r := hi.GetRemote(); r.IsValid() {
+			set[VerifRemoteEntry{x.String(), x.String(), "rem", r}] = struct{}{}
+		}
+	}
+	out := make([]VerifRemoteEntry, 0, len(set))
+	for e := range set {
+		out = append(out, e)
+	}
+	sort.Slice(out, func(i, j int) bool {
+		a, b := out[i], out[j]
+		if a.Vpn != b.Vpn {
+			return a.Vpn < b.Vpn
+		}
+		if a.Owner != b.Owner {
+			return a.Owner < b.Owner
+		}
+		if a.Kind != b.Kind {
+			return a.Kind < b.Kind
+		}
+		return a.Addr.String() < b.Addr.String()
+	})
+	return out
+}
+
+// VerifPendingOf names the overlay address whose pending handshake owns this local index ("" if none).
+func (c *Control) VerifPendingOf(localIndex uint32) string {
+	hsm := c.f.handshakeManager
+	hsm.RLock()
+	defer hsm.RUnlock()
+	if hh, ok := hsm.indexes[localIndex]; ok && hh.hostinfo != nil && len(hh.hostinfo.vpnAddrs) > 0 {
+		return hh.hostinfo.vpnAddrs[0].String()
+	}
+	return ""
+}
+
+// VerifSockets returns the udp sockets the node holds right now (one per configured routine after Main).
+func (c *Control) VerifSockets() []udp.Conn {
+	return append([]udp.Conn(nil), c.f.writers...)
 }
